@@ -4,6 +4,7 @@ use proptest::prelude::*;
 use serde::{Deserialize, Serialize};
 use vc_infer::analysis::*;
 use vc_infer::chain::*;
+use vc_infer::convpool::*;
 use vc_infer::oplevel::analyse_ops;
 use vc_onnxgen::grammar::*;
 use vc_onnxgen::Tol;
@@ -73,6 +74,79 @@ fn op_chain_oracle(known: &[String], c: &CCase) -> Verdict {
     verdict(rep, known)
 }
 
+#[derive(Clone, Debug, Serialize, Deserialize)]
+struct PCase {
+    g: ConvPoolCase,
+    inst: Vec<u32>,
+}
+
+/// Sizes for the alternate instantiations of conv/pool inputs (spatial sizes up to 12).
+const CP_SIZES: [i64; 14] = [1, 2, 3, 4, 5, 6, 7, 8, 9, 10, 11, 12, 0, 1];
+
+fn cp_labels(built: &ChainBuilt, rep: &mut Report) {
+    use vc_onnxgen::model::Attr;
+    for n in &built.model.graph.nodes {
+        if n.op == "Shape" {
+            continue;
+        }
+        let get = |k: &str| n.attrs.iter().find(|(a, _)| a == k).map(|(_, v)| v.clone());
+        let nd = match get("kernel_shape") {
+            Some(Attr::Ints(k)) => k.len(),
+            _ => 0,
+        };
+        rep.label(if nd == 1 { "cp:1-d" } else { "cp:2-d" });
+        let ceil = matches!(get("ceil_mode"), Some(Attr::Int(1)));
+        let begin_pad = match get("pads") {
+            Some(Attr::Ints(p)) => p[..nd].iter().any(|x| *x > 0),
+            _ => false,
+        };
+        let asym = match get("pads") {
+            Some(Attr::Ints(p)) => (0..nd).any(|d| p[d] != p[d + nd]),
+            _ => false,
+        };
+        if ceil {
+            rep.label(if begin_pad { "cp:ceil_mode+begin-padding" } else { "cp:ceil_mode" });
+        }
+        if asym {
+            rep.label("cp:asymmetric-pads");
+        }
+        match get("auto_pad") {
+            Some(Attr::Str(s)) => rep.label(&format!("cp:auto_pad={s}")),
+            _ => rep.label("cp:auto_pad-absent"),
+        }
+        if matches!(get("dilations"), Some(Attr::Ints(d)) if d.iter().any(|x| *x > 1)) {
+            rep.label("cp:dilated");
+        }
+        if matches!(get("strides"), Some(Attr::Ints(d)) if d.iter().any(|x| *x > 1)) {
+            rep.label("cp:strided");
+        }
+    }
+}
+
+fn cp_graph_oracle(known: &[String], c: &PCase) -> Verdict {
+    let built = c.g.build();
+    let orig = match original_inst(&built.model, &built.inputs) {
+        Ok(o) => o,
+        Err(e) => return Verdict::fail("harness:generator-inconsistent", e),
+    };
+    let mut insts = vec![orig.clone()];
+    if !orig.assign.is_empty() {
+        for s in &c.inst {
+            insts.push(alternate_inst_sizes(&built.model, &orig, *s, &CP_SIZES));
+        }
+    }
+    let mut rep = analyse(&built.model, &insts, &Options { end_to_end: true, tol: TOL });
+    cp_labels(&built, &mut rep);
+    verdict(rep, known)
+}
+
+fn cp_op_oracle(known: &[String], c: &PCase) -> Verdict {
+    let built = c.g.build();
+    let mut rep = analyse_ops(&built.model, &built.inputs, &c.inst);
+    cp_labels(&built, &mut rep);
+    verdict(rep, known)
+}
+
 fn shape_profile() -> Profile {
     use Family::*;
     let mut p = Profile::general();
@@ -105,6 +179,10 @@ fn main() {
          shape inference off and on and all outputs compared. Operator level (operator-level-*): every operator node of a model \
          (all-ops grammar profile / shape chains) is inferred on its own from case-chosen symbolic descriptions of its concrete inputs \
          (fixed shape, symbols for some/all dims, fixed element values, symbolic element values, unknown), 3 description variants per model. \
+         Sub-checks conv-pool-*: one-input models x:f32[N,C,spatial..] (1-d/2-d, dims fixed or symbolic, spatial 1..12) -> \
+         MaxPool/AveragePool/Conv/ConvTranspose with kernel 1..4, stride 1..3, dilation 1..2 (convolutions), independent begin/end pads 0..2, \
+         auto_pad NOTSET/VALID/SAME_UPPER/SAME_LOWER/absent, ceil_mode, count_include_pad, group, bias, output_padding -> Shape, optionally a second \
+         pooling op; checked at graph level (alternate sizes 0..12) and at operator level. \
          Non-trivial = execution produced a value for which inference reported at least one fixed number (dim, constant element) \
          or an expression/symbol that evaluated, and it was compared. Distinct = distinct raw case.",
     );
@@ -129,5 +207,10 @@ fn main() {
     ck.prop_export("operator-level-all-ops", ck.pick(5000, 150_000), ostrat, |c| op_oracle(&all, &known, c), |c| GCase { g: c.g.export(&all), inst: c.inst.clone() });
     let cstrat3 = || (raw_chain(12).prop_map(ChainCase::Raw), proptest::collection::vec(any::<u32>(), 3)).prop_map(|(g, inst)| CCase { g, inst });
     ck.prop_export("operator-level-shape-chains", ck.pick(6000, 180_000), cstrat3, |c| op_chain_oracle(&known, c), |c| CCase { g: c.g.export(), inst: c.inst.clone() });
+    // convolution / pooling output-size arithmetic
+    let pstrat = || (raw_conv_pool().prop_map(ConvPoolCase::Raw), proptest::collection::vec(any::<u32>(), 2)).prop_map(|(g, inst)| PCase { g, inst });
+    ck.prop_export("conv-pool-graph", ck.pick(6000, 180_000), pstrat, |c| cp_graph_oracle(&known, c), |c| PCase { g: c.g.export(), inst: c.inst.clone() });
+    let pstrat3 = || (raw_conv_pool().prop_map(ConvPoolCase::Raw), proptest::collection::vec(any::<u32>(), 3)).prop_map(|(g, inst)| PCase { g, inst });
+    ck.prop_export("conv-pool-operator-level", ck.pick(4000, 120_000), pstrat3, |c| cp_op_oracle(&known, c), |c| PCase { g: c.g.export(), inst: c.inst.clone() });
     ck.finish();
 }
